@@ -22,10 +22,11 @@ pub struct PB {
     pub fsafe: bool,  // replay at f64 is meaningful
     pub dead: bool,
     pub dead_after: bool, // a result left the magnitude budget: the program ends before it
+    pub float_only: bool, // uses an op that exists for BaseFloat scalars only
 }
 impl PB {
     pub fn new() -> PB {
-        PB { regs: vec![Val::Nil; NREG], init: vec![Val::Nil; NREG], calls: Vec::new(), next: 0, qok: true, fsafe: true, dead: false, dead_after: false }
+        PB { regs: vec![Val::Nil; NREG], init: vec![Val::Nil; NREG], calls: Vec::new(), next: 0, qok: true, fsafe: true, dead: false, dead_after: false, float_only: false }
     }
     pub fn load(&mut self, v: V) -> usize {
         if self.next >= NREG { self.dead = true; return 0; }
@@ -71,6 +72,7 @@ impl PB {
         for &x in scs {
             if x == "Q" && !self.qok { continue; }
             if (x == "f64" || x == "f32") && !self.fsafe { continue; }
+            if self.float_only && !(x == "Q" || x == "f64" || x == "f32") { continue; }
             s.push(x);
         }
         if s.is_empty() { return None; }
@@ -471,6 +473,25 @@ fn gen_c08(p: &Pools, rng: &mut Rng, pb: &mut PB) {
 
 // ------------------------------------------------------------------ C09
 fn gen_c09(p: &Pools, rng: &mut Rng, pb: &mut PB) {
+    if rng.chance(1, 3) {
+        // general position: arbitrary rational eye / direction / up (normalisations are not exact); judged through projections
+        let (dir, up) = (rv3(rng), rv3(rng));
+        let c = dir.cross(up);
+        if c.x.n == 0 && c.y.n == 0 && c.z.n == 0 { return; }
+        let eye = Point3::from_vec(rv3(rng));
+        let (d, u, e, c2) = (pb.load(Val::V3(dir)), pb.load(Val::V3(up)), pb.load(Val::P3(eye)), pb.load(Val::P3(eye + dir)));
+        let (inner, form, rest): (&str, &str, Vec<usize>) = match rng.below(5) {
+            0 => ("mat3_look_to", *rng.pick(&["lh", "rh", "dep"]), vec![d, u]),
+            1 => ("mat4_look_to", *rng.pick(&["lh", "rh", "dep"]), vec![e, d, u]),
+            2 => ("mat4_look_at", *rng.pick(&["lh", "rh", "dep"]), vec![e, c2, u]),
+            3 => { let tt = pb.load(t(*rng.pick(&["Quaternion", "Basis3"]))); ("rot_look_at", "m", vec![tt, d, u]) }
+            _ => { let tt = pb.load(t(*rng.pick(&["Matrix4", "Matrix3_3", "DecQ", "Dec3"]))); ("tf_look_at", *rng.pick(&["dep", "rh", "lh"]), vec![tt, e, c2, u]) }
+        };
+        let mut a = vec![pb.load(t(inner)), pb.load(t(form))];
+        a.extend(rest);
+        pb.call("look_proj", "m", &a);
+        return;
+    }
     if rng.chance(1, 4) {
         // 2-D
         let u = uv2(p, rng);
@@ -926,6 +947,19 @@ fn write_views(ty: &str) -> Vec<&'static str> {
     else { vec!["index", "array_mut", "tuple_mut", "range_mut", "ptr_mut", "fields", "from_array_mut"] }
 }
 fn gen_c16(_p: &Pools, rng: &mut Rng, pb: &mut PB) {
+    if rng.chance(1, 10) {
+        // growth: Matrix::as_ptr / as_mut_ptr, mint Euler angles, Bounded
+        match rng.below(3) {
+            0 => { let ty = *rng.pick(&["Matrix2", "Matrix3", "Matrix4"]); let n = ncomp(ty); let x = pb.load(typed_from(ty, &distinct(rng, n)));
+                   pb.float_only = true;
+                   pb.call("mat_ptr_read", "m", &[x]);
+                   let (i, s) = (pb.load(Val::I(rng.range(0, n as i64))), pb.load(vs(Q::int(91))));
+                   let w = pb.call("mat_ptr_write", "m", &[x, i, s]); pb.call("view_read", "fields", &[w]); }
+            1 => { let tt = pb.load(t(*rng.pick(&["Vector3", "Point2", "Deg"]))); pb.call("bounded", "m", &[tt]); }
+            _ => { let tt = pb.load(t(*rng.pick(&["Vector1", "Vector2", "Vector3", "Vector4", "Point1", "Point2", "Point3", "Rad", "Deg"]))); pb.call("bounded", "m", &[tt]); }
+        }
+        return;
+    }
     let ty = *rng.pick(ALLTY);
     let n = ncomp(ty);
     let c = distinct(rng, n);
